@@ -2350,7 +2350,7 @@ class _ReadDTCType6Request(
 
     @property
     def pdu(self) -> bytes:
-        return pack("!BBB", self.SERVICE_ID, self.sub_function_with_suppress_response_bit)
+        return pack("!BB", self.SERVICE_ID, self.sub_function_with_suppress_response_bit)
 
     @classmethod
     def _from_pdu(cls: type[T_ReadDTCType6Request], pdu: bytes) -> T_ReadDTCType6Request:
@@ -2558,7 +2558,7 @@ class ReportSupportedDTCRequest(
     minimal_length=2,
     maximal_length=2,
 ):
-    def __init__(self, dtc_status_mask: int, suppress_response: bool = False) -> None:
+    def __init__(self, suppress_response: bool = False) -> None:
         """Read the supported DTCs from the UDS server.
         This is an implementation of the UDS request for the
         reportSupportedDTC sub-function of the service ReadDTCInformation (0x19).
@@ -2587,7 +2587,7 @@ class ReportFirstTestFailedDTCRequest(
     minimal_length=2,
     maximal_length=2,
 ):
-    def __init__(self, dtc_status_mask: int, suppress_response: bool = False) -> None:
+    def __init__(self, suppress_response: bool = False) -> None:
         """Read the first failed DTC since last clearance from the UDS server.
         This is an implementation of the UDS request for the
         reportFirstTestFailedDTC sub-function of the service ReadDTCInformation (0x19).
@@ -2616,7 +2616,7 @@ class ReportFirstConfirmedDTCRequest(
     minimal_length=2,
     maximal_length=2,
 ):
-    def __init__(self, dtc_status_mask: int, suppress_response: bool = False) -> None:
+    def __init__(self, suppress_response: bool = False) -> None:
         """Read the first confirmed DTC since last clearance from the UDS server.
         This is an implementation of the UDS request for the
         reportFirstConfirmedDTC sub-function of the service ReadDTCInformation (0x19).
@@ -2645,7 +2645,7 @@ class ReportMostRecentFirstTestFailedDTCRequest(
     minimal_length=2,
     maximal_length=2,
 ):
-    def __init__(self, dtc_status_mask: int, suppress_response: bool = False) -> None:
+    def __init__(self, suppress_response: bool = False) -> None:
         """Read the most recent failed DTC since last clearance from the UDS server.
         This is an implementation of the UDS request for the
         reportMostRecentTestFailedDTC sub-function of the service ReadDTCInformation (0x19).
@@ -2674,7 +2674,7 @@ class ReportMostRecentConfirmedDTCRequest(
     minimal_length=2,
     maximal_length=2,
 ):
-    def __init__(self, dtc_status_mask: int, suppress_response: bool = False) -> None:
+    def __init__(self, suppress_response: bool = False) -> None:
         """Read the most recent confirmed DTC since last clearance from the UDS server.
         This is an implementation of the UDS request for the
         reportMostRecentConfirmedDTC sub-function of the service ReadDTCInformation (0x19).
@@ -2703,7 +2703,7 @@ class ReportDTCWithPermanentStatusRequest(
     minimal_length=2,
     maximal_length=2,
 ):
-    def __init__(self, dtc_status_mask: int, suppress_response: bool = False) -> None:
+    def __init__(self, suppress_response: bool = False) -> None:
         """Read the DTCs with permanent status from the UDS server.
         This is an implementation of the UDS request for the
         reportDTCWithPermanentStatus sub-function of the service ReadDTCInformation (0x19).
